@@ -431,6 +431,10 @@ def _build():
 
 
 FINDINGS = _build() + [
+    dict(id="C03-argparse-hop-int-default-narrows-declared-float", property="C03",
+         pattern=dict(check="chain_hop", last_hop="argparse", entry="param", field="typ", default_kind="int", typ_class={"in": ["float", "Optional"]}, observed={"in": ["changed_to_int", "optional_base_changed_to_int"]}),
+         what="argparse hop of a parameter declared float whose default is written as an int: the type comes back int - as C02-int-default-narrows-declared-float",
+         site="cdd/shared/ast_utils.py:infer_type_and_default", example="{'alpha': {'typ': 'float', 'doc': 'the value', 'default': 2}} -> argparse"),
     dict(id="C03-docstring-hop-double-quote-in-default", property="C03",
          pattern=dict(check="chain_hop", last_hop="docstring", quote_in_default=True, field="parse", observed="raises SyntaxError"),
          what="[R-default-quote] docstring hop of a string default containing a double quote raises SyntaxError - as C01-double-quote-in-string-default-not-escaped",
